@@ -159,7 +159,10 @@ def replay_read(inp):
         for j in range(len(w)):
             want = float(spec_convert(inp['flux'][a_][j], inp['a'], inp['b'], nu[j], inp['d']))
             if not close(t.flux[a_, j].value, want, 1e-6, 0.0):
-                bad.append((a_, j, float(t.flux[a_, j].value), want))
+                bad.append(('flux', a_, j, float(t.flux[a_, j].value), want))
+            wante = float(spec_convert(inp['err'][a_][j], inp['a'], inp['b'], nu[j], inp['d']))
+            if not close(t.error[a_, j].value, wante, 1e-6, 0.0):
+                bad.append(('error', a_, j, float(t.error[a_, j].value), wante))
     return bool(bad), {'mismatch': bad[:3]}
 
 
